@@ -35,6 +35,7 @@ A(a, w) == act' = [a |-> a, w |-> w]
 SInit == Init /\ act = [a |-> "Init", w |-> 0]
 SNext ==
   \/ \E g \in DOMAIN Groups : MapWG(g, Groups[g]) /\ act' = [a |-> "MapWG", w |-> 0, g |-> g]
+  \/ \E g \in DOMAIN Groups \cap SampledGroups : MapWGSampled(g, Groups[g]) /\ act' = [a |-> "MapWGSampled", w |-> 0, g |-> g]
   \/ \E w \in Wfs :
        \/ \E i \in MCInsts : Allowed(w, i) /\ Issue(w, i) /\ act' = [a |-> "Issue", w |-> w, i |-> i]
        \/ UnitDone(w) /\ A("UnitDone", w)
@@ -42,6 +43,7 @@ SNext ==
        \/ EvalWaitcnt(w) /\ A("EvalWaitcnt", w)
        \/ EvalBarrier(w) /\ A("EvalBarrier", w)
        \/ EvalEndpgm(w) /\ A("EvalEndpgm", w)
+       \/ SampledEnd(w) /\ A("SampledEnd", w)
   \/ \E j \in 1..Len(vq) : MemReturnV(j) /\ A("MemReturnV", vq[j].w)
   \/ \E j \in 1..Len(sq) : MemReturnS(j) /\ A("MemReturnS", sq[j].w)
   \/ EnvTakeACE /\ A("EnvTakeACE", 0)
